@@ -9,17 +9,17 @@
 EXTENDS ChildWire, Json
 CONSTANTS EchoRadius, GenRadius
 VARIABLE cur
-Space == Ball("echo", EchoRadius) \cup Ball("gen", GenRadius)
+GenSpace == Ball("echo", EchoRadius) \cup Ball("gen", GenRadius)
 
 (* Vacuity guard for the edge vocabulary, evaluated once when the generator   *)
 (* starts: every named edge, alone, must make the model's child answer differ *)
 (* from the model's in-process answer for at least one generated case, and    *)
 (* with no edge nothing may differ (the driver requires hits > 0, quiet).     *)
-Hit(e) == {c \in Space : ObsI(c) # ObsC(c, "pipe", {e}) \/ ObsI(c) # ObsC(c, "file", {e})}
-Quiet  == \A c \in Space : \A t \in {"file", "pipe"} : ObsI(c) = ObsC(c, t, {})
-ASSUME EdgeReport == PrintT(ToJson([edgereport |-> TRUE, cases |-> Cardinality(Space), quiet |-> Quiet,
+Hit(e) == {c \in GenSpace : ObsI(c) # ObsC(c, "pipe", {e}) \/ ObsI(c) # ObsC(c, "file", {e})}
+Quiet  == \A c \in GenSpace : \A t \in {"file", "pipe"} : ObsI(c) = ObsC(c, t, {})
+ASSUME EdgeReport == PrintT(ToJson([edgereport |-> TRUE, cases |-> Cardinality(GenSpace), quiet |-> Quiet,
                                     hits |-> [e \in Edges |-> Cardinality(Hit(e))]]))
-GenInit == cur \in Space
+GenInit == cur \in GenSpace
 GenNext == UNCHANGED cur
 GenSpec == GenInit /\ [][GenNext]_cur
 (* Pairs of dimensions the code couples (one statement reads both): the      *)
